@@ -96,11 +96,15 @@ func c02FixedSchema() *xSchema {
 	pool("fa", xNamed("Int"), xArg{Name: "n", Type: xNamed("Int")})
 	pool("o", xNamed("Q"))
 	pool("if0", xNamed("I0"))
+	pool("fg", xNamed("String"), xArg{Name: "in1", Type: xNamed("In1")})
+	s.Types = append(s.Types,
+		&xType{Name: "In0", Kind: "input", Inputs: []xArg{{Name: "a", Type: xNamed("Int")}, {Name: "b", Type: xNamed("Int")}}},
+		&xType{Name: "In1", Kind: "input", Inputs: []xArg{{Name: "x", Type: xNamed("String")}, {Name: "in", Type: xNamed("In0")}, {Name: "ins", Type: xList(xNamed("In0"))}}})
 	s.Types = append(s.Types,
 		&xType{Name: "I0", Kind: "interface", Fields: []string{"a"}},
 		&xType{Name: "O0", Kind: "object", Fields: []string{"a", "b", "i", "o"}, Ifaces: []string{"I0"}},
 		&xType{Name: "O1", Kind: "object", Fields: []string{"a", "b", "ni", "o"}, Ifaces: []string{"I0"}},
-		&xType{Name: "Q", Kind: "object", Fields: []string{"a", "b", "i", "fa", "o", "if0"}},
+		&xType{Name: "Q", Kind: "object", Fields: []string{"a", "b", "i", "fa", "o", "if0", "fg"}},
 		&xType{Name: "M", Kind: "object", Fields: []string{"a"}})
 	return s
 }
@@ -425,6 +429,7 @@ var c02Mutations = []string{
 	"duplicate-variable", "variable-position", "non-input-variable", "fragment-cycle", "unused-fragment",
 	"duplicate-fragment", "impossible-spread", "leaf-subselection", "duplicate-arg", "duplicate-input-field",
 	"duplicate-operation", "anonymous-and-named", "overlap-plant", "untyped-inline-wrap", "default-value",
+	"overlap-exclusive-then-strict",
 }
 
 func c02AnyOp(r *Rng, n *c02Nodes) *ast.OperationDefinition { return n.ops[r.Intn(len(n.ops))] }
@@ -793,6 +798,8 @@ func c02Mutate(m string, r *Rng, d *ast.Document, xs *xSchema) bool {
 		return true
 	case "overlap-plant":
 		return c02Plant(r, d, n, xs, leafF, compF)
+	case "overlap-exclusive-then-strict":
+		return c02PlantFlag(r, d, xs, leafF)
 	}
 	return false
 }
@@ -926,6 +933,88 @@ func c02Plant(r *Rng, d *ast.Document, n *c02Nodes, xs *xSchema, leafF, compF []
 		}
 	}
 	host.Selections = append(host.Selections, s1, s2)
+	return true
+}
+
+// c02PlantFlag adds an operation in which two fragments are first compared under mutually
+// exclusive parents (two object types of one abstract field, one response key) and then an
+// operation in which they are compared strictly; the differing fields sit at a random spread
+// depth below them and at a random nesting depth (directly in the fragments, or below a
+// common field, so that the second comparison reaches a (field set, fragment) pair the first
+// one already recorded).
+func c02PlantFlag(r *Rng, d *ast.Document, xs *xSchema, leafF []string) bool {
+	var objs []string
+	var absField string
+	for _, t := range xs.Types {
+		if t.Kind == "object" && t.Name != "Q" && t.Name != "M" {
+			for _, i := range t.Ifaces {
+				if i == "I0" {
+					objs = append(objs, t.Name)
+				}
+			}
+		}
+	}
+	q := xs.typ("Q")
+	for _, f := range q.Fields {
+		if xs.Pool[f].Type.named() == "I0" {
+			absField = f
+		}
+	}
+	var selfField string // a field of Q returning an object type that both implementers also have
+	for _, f := range q.Fields {
+		tn := xs.Pool[f].Type.named()
+		if t := xs.typ(tn); t != nil && t.Kind == "object" {
+			selfField = f
+		}
+	}
+	if len(objs) < 2 || absField == "" || len(leafF) < 2 {
+		return false
+	}
+	f1, f2 := leafF[r.Intn(len(leafF))], leafF[r.Intn(len(leafF))]
+	if f1 == f2 {
+		return false
+	}
+	pfx := fmt.Sprintf("Mx%d", r.Intn(1000))
+	leaf := func(side int) ast.Selection {
+		fn := f1
+		if side == 1 {
+			fn = f2
+		}
+		var cur ast.Selection = c02Field("kx", fn, nil, nil)
+		for i := r.Intn(3); i >= 1; i-- {
+			nm := fmt.Sprintf("%sD%d_%d", pfx, side, i)
+			d.Definitions = append(d.Definitions, c02Frag(nm, "Q", c02Set(cur)))
+			cur = c02Spread(nm)
+		}
+		return cur
+	}
+	a, b := leaf(0), leaf(1)
+	if selfField != "" && r.Bool() {
+		a = c02Field("kw", selfField, nil, c02Set(a))
+		b = c02Field("kw", selfField, nil, c02Set(b))
+	}
+	d.Definitions = append(d.Definitions, c02Frag(pfx+"A", "Q", c02Set(a)), c02Frag(pfx+"B", "Q", c02Set(b)))
+	wrap := func(fr string) *ast.SelectionSet {
+		if selfField == "" {
+			return c02Set(c02Spread(fr))
+		}
+		return c02Set(c02Field("kv", selfField, nil, c02Set(c02Spread(fr))))
+	}
+	excl := ast.NewOperationDefinition(&ast.OperationDefinition{Operation: "query", Name: c02Name(pfx + "X"),
+		SelectionSet: c02Set(c02Field("", absField, nil, c02Set(
+			c02Inline(objs[0], wrap(pfx+"A")), c02Inline(objs[1], wrap(pfx+"B")))))})
+	strict := ast.NewOperationDefinition(&ast.OperationDefinition{Operation: "query", Name: c02Name(pfx + "Y"),
+		SelectionSet: c02Set(c02Spread(pfx+"A"), c02Spread(pfx+"B"))})
+	for _, def := range d.Definitions {
+		if op, ok := def.(*ast.OperationDefinition); ok && op.Name == nil {
+			op.Name = c02Name(pfx + "Z")
+		}
+	}
+	if r.Bool() {
+		d.Definitions = append([]ast.Node{excl, strict}, d.Definitions...)
+	} else {
+		d.Definitions = append([]ast.Node{strict, excl}, d.Definitions...)
+	}
 	return true
 }
 
@@ -1104,12 +1193,24 @@ func genC02(tier string, seed uint64, n int, e *Emitter) {
 		// the same for a pair of fragments
 		"query A { if0 { ... on O0 { w: o { ...FA } } ... on O1 { w: o { ...FB } } } } query B { ...FA ...FB } fragment FA on Q { x: a } fragment FB on Q { x: b }",
 		"query A { if0 { ... on O0 { w: o { ...FA } } ... on O1 { w: o { ...FB } } } } query B { ...FB ...FA } fragment FA on Q { x: a ...FC } fragment FB on Q { ...FC y: a } fragment FC on Q { y: b }",
+		// between the sub-selection sets of two fields with one response key: a direct field of either
+		// set against a fragment spread in the other (both orientations), and fragment against fragment
+		"{ o { ...F } o { x: a } } fragment F on Q { x: b }",
+		"{ o { x: a } o { ...F } } fragment F on Q { x: b }",
+		"{ o { ...F } o { ...G } } fragment F on Q { x: a } fragment G on Q { x: b }",
+		"{ o { ...F } o { x: a } } fragment F on Q { ...G } fragment G on Q { x: b }",
+		"{ o { y: a ...F } o { ...G x: a } } fragment F on Q { ...H } fragment G on Q { y: a } fragment H on Q { x: b }",
 		// input objects: duplicates around and inside nested literals
 		"{ fa(n: 1) }",
+		"{ fg(in1: {x: \"s\", in: {b: 1}, x: \"t\"}) }",
+		"{ fg(in1: {in: {b: 1, b: 2}}) }",
+		"{ fg(in1: {in: {b: 1}, ins: [{b: 1}, {a: 1, b: 1, a: 2}]}) }",
+		"{ fg(in1: {in: {a: 1, b: 2}, x: \"t\", ins: [{b: 1}]}) }",
+		"{ fg(in1: {ins: [{b: 1}], x: \"s\", in: {a: 1}, ins: []}) }",
 	} {
 		c02Emit(e, fixed, q, "corpus", []string{"corpus"})
 	}
-	sweep := 120
+	sweep := 160
 	if tier == "thorough" {
 		sweep = 1 << 30
 	}
@@ -1216,7 +1317,7 @@ func c02Sweep(e *Emitter, sc *c02Schema, limit int, seed uint64) {
 	for _, t := range topos {
 		for s1 := 0; s1 <= t.k; s1++ {
 			for s2 := s1; s2 <= t.k; s2++ {
-				for _, nested := range []int{0, 1, 2} {
+				for _, nested := range []int{0, 1, 2, 3} {
 					idx++
 					if limit < 1<<29 && r.Intn(40) != 0 {
 						continue
@@ -1259,6 +1360,29 @@ func c02Sweep(e *Emitter, sc *c02Schema, limit int, seed uint64) {
 								left += fmt.Sprintf(" ...F%d", g)
 							} else {
 								right += fmt.Sprintf(" ...F%d", g)
+							}
+						}
+						if left == "" {
+							left = " __typename"
+						}
+						if right == "" {
+							right = " __typename"
+						}
+						sb.WriteString("{ o {" + left + " } o {" + right + " } }")
+					case 3:
+						// the same split, mirrored: the second field's set holds the first member
+						left, right := "", ""
+						if s1 == 0 {
+							right += " " + p[0]
+						}
+						if s2 == 0 {
+							left += " " + p[1]
+						}
+						for gi, g := range t.spread[0] {
+							if gi%2 == 0 {
+								right += fmt.Sprintf(" ...F%d", g)
+							} else {
+								left += fmt.Sprintf(" ...F%d", g)
 							}
 						}
 						if left == "" {
